@@ -75,6 +75,26 @@ Fixpoint cwalk (fs : forest) (cur : list nat) (rem : path) : cwres :=
       end
   end.
 
+(** ** /proc/self and /proc/thread-self
+    These two entries are symbolic links whose target depends on who reads them; the tracer must not follow
+    them as itself.  The code replaces a candidate path equal to one of them by the tracee's entry and goes on
+    in the same round.  [special c = Some c'] : the candidate [c] is such an entry and [c'] the tracee's. *)
+Fixpoint cwalk_m (fs : forest) (special : list nat -> option (list nat)) (cur : list nat) (rem : path) : cwres :=
+  match rem with
+  | [] => CDone cur
+  | Up :: r => cwalk_m fs special (parent cur) r
+  | Dot :: r => cwalk_m fs special cur r
+  | Name n :: r =>
+      match special (cur ++ [n]) with
+      | Some c' => cwalk_m fs special c' r
+      | None =>
+          match fs (cur ++ [n]) with
+          | Some (Link a t) => CHit ((if a then t else names cur ++ t) ++ r)
+          | _ => cwalk_m fs special (cur ++ [n]) r
+          end
+      end
+  end.
+
 (** filepath.Clean of an absolute pathname *)
 Fixpoint clean (cur : list nat) (rem : path) : list nat :=
   match rem with
@@ -94,6 +114,18 @@ Fixpoint cres (rounds : nat) (fs : forest) (p : path) : list nat :=
            end
   end.
 
+Fixpoint cres_m (rounds : nat) (fs : forest) (special : list nat -> option (list nat)) (p : path) : list nat :=
+  match rounds with
+  | 0 => clean [] p
+  | S n => match cwalk_m fs special [] p with
+           | CDone c => c
+           | CHit p' => cres_m n fs special p'
+           end
+  end.
+
+Definition presented_m (fs : forest) (special : list nat -> option (list nat)) (base : list nat) (is_abs : bool) (p : path) : list nat :=
+  cres_m 40 fs special (if is_abs then p else names base ++ p).
+
 (** absPath / absPathAt: an absolute pathname is walked from the root; a relative one is appended to
     the path of the base directory (cwd or descriptor, as /proc reports it) *)
 Definition presented (fs : forest) (base : list nat) (is_abs : bool) (p : path) : list nat :=
@@ -111,3 +143,11 @@ Fixpoint dir_chain (fs : forest) (pre c : list nat) : Prop :=
   | [] => True
   | n :: r => fs (pre ++ [n]) = Some Dir /\ dir_chain fs (pre ++ [n]) r
   end.
+
+Fixpoint lnat_eqb (a b : list nat) : bool :=
+  match a, b with [], [] => true | x :: a', y :: b' => Nat.eqb x y && lnat_eqb a' b' | _, _ => false end.
+
+(** /proc/self -> <pid> and /proc/thread-self -> <pid>/task/<pid> in the tracee's view *)
+Definition proc_special (pr self tself pid task : nat) (c : list nat) : option (list nat) :=
+  if lnat_eqb c [pr; self] then Some [pr; pid]
+  else if lnat_eqb c [pr; tself] then Some [pr; pid; task; pid] else None.
